@@ -33,6 +33,7 @@ func EndBlocker(ctx sdk.Context, k keeper.Keeper) {
 	// Add all active validators to the claim map
 	i := 0
 	// Build claim map over all validators in active set
+	totalBondedPower := int64(0)
 	validatorClaimMap := make(map[string]types.Claim)
 	for ; iterator.Valid() && i < int(maxValidators); iterator.Next() {
 		validator, found := k.StakingKeeper.GetValidator(ctx, iterator.Value())
@@ -43,18 +44,21 @@ func EndBlocker(ctx sdk.Context, k keeper.Keeper) {
 		// Exclude inactive validator or jailed validator
 		if validator.IsBonded() && !validator.IsJailed() {
 			valAddr := validator.GetOperator()
+			weight := validator.GetConsensusPower(k.StakingKeeper.PowerReduction(ctx))
 			validatorClaimMap[valAddr.String()] = types.Claim{
-				Weight:  validator.GetConsensusPower(k.StakingKeeper.PowerReduction(ctx)),
+				Weight:  weight,
 				Miss:    false,
 				Abstain: false,
 			}
+			totalBondedPower += weight
 			i++
 		}
 	}
 
 	// calculate threshold power for a block to be considered as a winner
 	// threshold = total power * params.VoteThreshold (0.5 by default)
-	totalBondedPower := sdk.TokensToConsensusPower(k.StakingKeeper.TotalBondedTokens(ctx), k.StakingKeeper.PowerReduction(ctx))
+	// The total is the sum of the powers the tally counts with: under sdk.ConstantReward every validator has power 1
+	// and TokensToConsensusPower(TotalBondedTokens) is 1 as well, which made a single validator reach any threshold.
 	voteThreshold := params.VoteThreshold
 	thresholdVotes := voteThreshold.MulInt64(totalBondedPower).RoundInt()
 
